@@ -143,6 +143,18 @@ def gen_text(rng, maxlen, allow_blank=False):
     return bytes(rng.choice(alpha) for _ in range(n))
 
 
+def num_ref(rng, c):
+    """a numeric character reference for code point c: decimal or hexadecimal (either case), a quarter of them zero-padded
+    (`&#060;`, `&#x003c;`: still decimal / hexadecimal, never octal - missed seed C32-4)"""
+    pad = rng.random() < 0.25
+    k = rng.random()
+    if k < 0.5:
+        return (b'&#%0*d;' % (rng.choice((3, 4, 6)), c)) if pad else b'&#%d;' % c
+    if k < 0.75:
+        return (b'&#x%0*X;' % (rng.choice((3, 4)), c)) if pad else b'&#x%X;' % c
+    return (b'&#x%0*x;' % (rng.choice((3, 4)), c)) if pad else b'&#x%x;' % c
+
+
 def write_ref(rng, s, quote=None):
     """one written form of the raw text s: markup characters as entity or numeric references (always), others
     sometimes as numeric / Latin-1 entity references"""
@@ -151,11 +163,11 @@ def write_ref(rng, s, quote=None):
         must = c in ESC
         r = rng.random()
         if must:
-            out += ESC[c] if r < 0.7 else (b'&#%d;' % c if r < 0.85 else b'&#x%x;' % c)
+            out += ESC[c] if r < 0.7 else num_ref(rng, c)
         elif c in LATIN_BY_CP and r < 0.7:
             out += b'&' + LATIN_BY_CP[c].encode() + b';'
         elif c in (10, 13) or c >= 127 or r < 0.03:
-            out += b'&#%d;' % c if rng.random() < 0.5 else (b'&#x%X;' % c if rng.random() < 0.5 else b'&#x%x;' % c)
+            out += num_ref(rng, c)
         else:
             out += bytes([c])
     return out
